@@ -413,7 +413,8 @@ static std::vector<Stepper> steppers() {
         auto p = pomdpOf(ps); auto m = std::make_shared<A::POMDP::Model<A::MDP::Model>>(toDense(p));
         auto s = std::make_shared<A::POMDP::PERSEUS>(6, 2, 0.0); double lo = p.R.minCoeff();
         return wrapObj(s, [m, lo](A::POMDP::PERSEUS & x, int) { auto [var, vf] = x(*m, lo); Out o; o.push_back(var); flat(o, vf); return o; }, m); }, true});
-    v.push_back({"BeliefGenerator", true, 2, [](uint64_t ps) {
+    v.push_back({"BeliefGenerator", false, 2,   // not seed-sensitive: on some models only corner / reachable beliefs are produced
+         [](uint64_t ps) {
         using M = A::POMDP::Model<A::MDP::Model>; auto p = pomdpOf(ps); if (p.S < 3) p = pomdpOf(ps, 1); auto m = std::make_shared<M>(toDense(p));
         auto s = std::make_shared<A::POMDP::BeliefGenerator<M>>(*m); size_t S = p.S;
         return wrapObj(s, [S](A::POMDP::BeliefGenerator<M> & x, int k) { auto bl = x(S + 6 + (size_t)k); Out o; o.push_back((double)bl.size()); for (auto & b : bl) flat(o, b); return o; }, m, true); }});
